@@ -1,6 +1,7 @@
 #!/bin/sh
 # Usage: lib/regress_seeds.sh [seed-id-prefix...]  -- every kept seed (or those matching a prefix) against the check of the property
 # it breaks: apply to /repo, run the quick check, undo.  Expected: rc=1 with a VIOLATION line for every seed.
+export VERIF_EVIDENCE_DIR=/verif/build/evidence_scratch; mkdir -p $VERIF_EVIDENCE_DIR
 cd "$(dirname "$0")/.."
 for d in seeded/*/; do
   s=$(basename $d)
